@@ -14,6 +14,7 @@ Exp(op, a) == IF op \in SpOps THEN SpExp(op, a)
               ELSE IF op \in UslpOps THEN UslpExp(op, a)
               ELSE IF op \in MsgOps THEN MsgExp(op, a)
               ELSE IF op \in FaultOps THEN FaultExp(op, a)
+              ELSE IF op \in ObsOps THEN ObsExp(op, a)
               ELSE [unknown |-> op]
 
 Law(op, a) == IF op \in SpOps THEN SpLaw(op, a)
